@@ -28,7 +28,7 @@ def make_catchment(gridmod, fr, fc, cells, s, fxll, fyll):
 
 def coarse_grid(gridmod, g, s, fxll, fyll):
     q = s / 4.0
-    return gridmod.Grid("coarse", g["cc"], g["rc"], cellsize=g["rho"] * s,
+    return gridmod.Grid("coarse", g["cc"], g["rc"], cellsize=g["cs"] * q,
                         xllcorner=fxll + g["ox"] * q, yllcorner=fyll + g["oy"] * q)
 
 
@@ -43,7 +43,7 @@ def observe_intersect(cat, coarse, g, s, fxll, fyll, filled):
         warnings.simplefilter("ignore")
         ag, cells, w = cat.intersect(coarse, filled=filled)
     q = s / 4.0
-    rho2 = g["rho"] ** 2
+    rho2 = (g["cs"] / 4.0) ** 2
     out = {"out_cells": [int(c) for c in cells], "out_counts": [as_count(x * rho2) for x in w]}
     out["ag"] = {"row_start": int(ag.parentgrid_rows_start), "row_end": int(ag.parentgrid_rows_end),
                  "col_start": int(ag.parentgrid_cols_start), "col_end": int(ag.parentgrid_cols_end),
@@ -91,8 +91,8 @@ def replay_state(ctx, gridmod, c, h):
                 except IndexError:
                     ok = False
             ok = ok and sum(sum(r) for r in ag["data"]) == sum(got.values())
-            ok = ok and ag["xll"] == g["ox"] + 4 * g["rho"] * ag["col_start"]
-            ok = ok and ag["yll"] == g["oy"] + 4 * g["rho"] * (g["rc"] - 1 - ag["row_end"])
+            ok = ok and ag["xll"] == g["ox"] + g["cs"] * ag["col_start"]
+            ok = ok and ag["yll"] == g["oy"] + g["cs"] * (g["rc"] - 1 - ag["row_end"])
             if not ok:
                 ctx.violation("intersect:weight-grid", "area grid %s inconsistent with weights %s" % (ag, got), case)
     q = s / 4.0
@@ -154,8 +154,8 @@ def code_to_spec(ctx, gridmod, n):
         cells = [int(c) for c in (cat.idxcells_area_filled if filled else cat.idxcells_area)]
         if not cells:
             continue
-        rho = int(rng.integers(1, 5))
-        g = {"rho": rho, "ox": int(rng.integers(-12, 6)) * 2 + 1, "oy": int(rng.integers(-12, 6)) * 2 + 1,
+        cs = int(rng.choice([4, 6, 8, 10, 12, 14, 16]))
+        g = {"cs": cs, "ox": int(rng.integers(-12, 6)) * 2 + 1, "oy": int(rng.integers(-12, 6)) * 2 + 1,
              "rc": int(rng.integers(1, 6)), "cc": int(rng.integers(1, 6))}
         coarse = coarse_grid(gridmod, g, s, fxll, fyll)
         try:
@@ -164,6 +164,23 @@ def code_to_spec(ctx, gridmod, n):
         except ValueError:
             recs.append({"kind": "intersect", "fr": fr, "fc": fc, "cells": cells, "g": g, "out_cells": [], "out_counts": [],
                          "ag": {"row_start": 0, "row_end": 0, "col_start": 0, "col_end": 0, "data": [], "xll": 0, "yll": 0}})
+        # the same question for a catchment obtained by set algebra from one that was already intersected
+        try:
+            cat2 = gridmod.Catchment("c2", flow)
+            cat2.delineate_area(int(rng.integers(0, fr * fc)), nval=fr * fc + 2)
+            if len(cat2.idxcells_area):
+                for comb in ((cat + cat2), (cat - cat2)):
+                    cc = [int(c) for c in comb.idxcells_area]
+                    if not cc:
+                        continue
+                    try:
+                        obs2 = observe_intersect(comb, coarse, g, s, fxll, fyll, False)
+                        recs.append(dict(obs2, kind="intersect", fr=fr, fc=fc, cells=cc, g=g))
+                    except ValueError:
+                        recs.append({"kind": "intersect", "fr": fr, "fc": fc, "cells": cc, "g": g, "out_cells": [], "out_counts": [],
+                                     "ag": {"row_start": 0, "row_end": 0, "col_start": 0, "col_end": 0, "data": [], "xll": 0, "yll": 0}})
+        except ValueError:
+            pass
         npts = int(rng.integers(1, 7))
         if rng.random() < 0.5:
             pts = [[int(rng.integers(-4, 2 * fc + 4)) * 2, int(rng.integers(-4, 2 * fr + 4)) * 2] for _ in range(npts)]
